@@ -228,7 +228,7 @@ func TestTry(t *testing.T) {
 	}
 	sc := scenarios[rf.Scenario]
 	tries := envInt("NSIM_TRIES", 0)
-	stepBudget := envInt("NSIM_TRY_STEPS", 3000000)
+	stepBudget := envInt("NSIM_TRY_STEPS", 1500000)
 	usedSteps := 0
 	for k := 0; k <= tries && (k == 0 || usedSteps < stepBudget); k++ {
 		plan := *rf.Plan
@@ -266,6 +266,29 @@ func TestTry(t *testing.T) {
 						hit.Expect.TraceHash = fres.TraceHash
 					}
 				}
+				if hit.Plan == &fp && os.Getenv("NSIM_MIN_SCHEDULE") != "" {
+					// schedule minimisation: drop scheduling segments (context switches) one at a
+					// time, from the end, while the same violation signature is still produced
+					before := len(fp.Sched.Follow)
+					budget := 500
+					for j := len(fp.Sched.Follow) - 1; j >= 0 && budget > 0; j-- {
+						if j >= len(fp.Sched.Follow) {
+							continue
+						}
+						cand := fp
+						cand.Sched.Follow = append(append([]Seg{}, fp.Sched.Follow[:j]...), fp.Sched.Follow[j+1:]...)
+						budget--
+						cres := RunPlan(t, sc, &cand, false)
+						for _, cv := range cres.Violations {
+							if cv.Property == rf.Property && cv.Sig == rf.Expect.Sig {
+								fp.Sched.Follow = cand.Sched.Follow
+								hit.Expect.TraceHash = cres.TraceHash
+								break
+							}
+						}
+					}
+					hit.Note = fmt.Sprintf("schedule minimised from %d to %d scheduling segments", before, len(fp.Sched.Follow))
+				}
 				hb, _ := json.Marshal(hit)
 				fmt.Printf("TRY-HIT %s\n", hb)
 				return
@@ -299,6 +322,14 @@ type chunk struct {
 	scen  string
 	from  int
 	count int
+}
+
+// crashOwners: stack frames that tie a crash to the subject of a property.
+var crashOwners = map[string]*regexp.Regexp{
+	"C10": regexp.MustCompile(`\(\*Nitro\)\.Visitor`),
+	"C05": regexp.MustCompile(`\(\*Nitro\)\.(StoreToDisk|LoadFromDisk)`),
+	"C11": regexp.MustCompile(`\(\*Nitro\)\.LoadFromDisk`),
+	"C12": regexp.MustCompile(`\(\*Nitro\)\.(StoreToDisk|LoadFromDisk)`),
 }
 
 var crashFrameRe = regexp.MustCompile(`github.com/couchbase/nitro[^\s(]*\.([A-Za-z0-9_.()*]+)\(`)
@@ -565,6 +596,12 @@ func driverMain(prop string) int {
 						}
 						viols = append(viols, violRec{Scen: cur.scen, I: lastRun, Crash: true, Stderr: tail(st2, 60),
 							V: Violation{Property: cprop, Sig: sig, Detail: firstLines(st2, 3)}})
+						// a crash inside the operation that is the subject of the property under
+						// check also breaks that property (the operation never delivers)
+						if re := crashOwners[def.Prop]; cprop != def.Prop && re != nil && re.MatchString(st2) {
+							viols = append(viols, violRec{Scen: cur.scen, I: lastRun, Crash: true, Stderr: tail(st2, 60),
+								V: Violation{Property: def.Prop, Sig: sig, Detail: firstLines(st2, 3)}})
+						}
 						evals++
 					} else {
 						infra = append(infra, fmt.Sprintf("worker death at %s run %d did not reproduce (%d/2): %v\n%s", cur.scen, lastRun, confirmed, err, tail(stderr, 30)))
@@ -676,7 +713,8 @@ func driverMain(prop string) int {
 		kf := findKnown(known, prop, sig)
 		path := filepath.Join(verifDir(), "replays", fmt.Sprintf("%s-%s.json", prop, sanitize(sig)))
 		rf := buildReplay(first, prop, base, tier)
-		if kf == nil || kf.Status != "known" {
+		if (kf == nil || kf.Status != "known") && nviol < 3 {
+			// the first three signatures are minimised; further ones keep the generated plan
 			rf = minimise(rf, first.Crash, tier)
 		}
 		b, _ := json.MarshalIndent(rf, "", " ")
@@ -926,11 +964,14 @@ func clonePlan(p *Plan) *Plan {
 func minimise(rf *replayFile, crash bool, tier string) *replayFile {
 	// every candidate is re-searched with up to `tries` derived schedules, bounded by a
 	// total of 3M yield points per candidate (cheap scenarios get hundreds of schedules)
-	budget := 150
+	budget := 80
 	tries := 400
+	wall := 60 * time.Second
 	if tier == "thorough" {
-		budget = 400
+		budget = 300
+		wall = 5 * time.Minute
 	}
+	deadline := time.Now().Add(wall)
 	if crash {
 		tries = 0
 		budget = 40
@@ -941,7 +982,8 @@ func minimise(rf *replayFile, crash bool, tier string) *replayFile {
 		return rf
 	}
 	attempt := func(cand *Plan) bool {
-		if budget <= 0 {
+		if budget <= 0 || time.Now().After(deadline) {
+			budget = 0
 			return false
 		}
 		budget--
@@ -982,7 +1024,16 @@ func minimise(rf *replayFile, crash bool, tier string) *replayFile {
 			}
 		}
 	}
-	best.Note = rf.Note + fmt.Sprintf("; minimised from %d tasks / %d operations", len(rf.Plan.Tasks), rf.Plan.NumOps())
+	note := rf.Note + fmt.Sprintf("; minimised from %d tasks / %d operations", len(rf.Plan.Tasks), rf.Plan.NumOps())
+	if !crash && best.Plan.Sched.Strategy == "follow" {
+		// finally shrink the pinned decision list itself
+		c := *best
+		if hit := tryFollow(&c); hit != nil && hit.Plan.Sched.Strategy == "follow" {
+			note += "; " + hit.Note
+			best = hit
+		}
+	}
+	best.Note = note
 	return best
 }
 
@@ -1094,4 +1145,32 @@ func cut(s string, n int) string {
 		return s[:n]
 	}
 	return s
+}
+
+// tryFollow re-runs a pinned (follow) plan in a child process with schedule
+// minimisation enabled.
+func tryFollow(rf *replayFile) *replayFile {
+	f, err := os.CreateTemp("", "nsim-try-*.json")
+	if err != nil {
+		return nil
+	}
+	defer os.Remove(f.Name())
+	b, _ := json.Marshal(rf)
+	f.Write(b)
+	f.Close()
+	cmd := exec.Command(os.Args[0], "-test.run", "^TestTry$", "-test.timeout", "0")
+	cmd.Env = append(os.Environ(), "NSIM_TRY="+f.Name(), "NSIM_TRIES=0", "NSIM_MIN_SCHEDULE=1")
+	out, err := cmd.Output()
+	if err != nil {
+		return nil
+	}
+	for _, l := range strings.Split(string(out), "\n") {
+		if strings.HasPrefix(l, "TRY-HIT ") {
+			var hit replayFile
+			if json.Unmarshal([]byte(l[8:]), &hit) == nil {
+				return &hit
+			}
+		}
+	}
+	return nil
 }
